@@ -15,6 +15,16 @@ package engine
 //   VReinforce: _access_count += 1 exactly, _last_accessed = now (bracketed)
 //   a reinforced twin never scores / ranks below its unreinforced twin.
 //
+// Hybrid (vector + text) searches: when the case has a text index, the same
+// memories are also loaded into a control index "c" of the same engine whose
+// memory configuration is nil (decay disabled => factor 1, so the control score
+// IS the fused similarity). Every hybrid query is sent to both; for every hit
+// whose membership in the vector leg is the same in both indexes
+//   score in "m" = score in "c" * factor(memory)        (bracketed clock)
+// however the hit was reached (vector leg, text leg, both), results are ordered
+// by that score, the k best of the common candidates are the ones returned, and
+// the reinforced-twin ordering holds. The fusion formula itself is not modelled.
+//
 // The wall clock (whole seconds, read by the engine during a search) is
 // bracketed: the reference is evaluated at the clock value read before and
 // after the call and the observed factor must lie in between.
@@ -52,6 +62,15 @@ type c15Mem struct {
 	Count       int       `json:"access_count"`
 	LastAgeS    *float64  `json:"last_accessed_age_s"` // initial _last_accessed = case start - v (nil: absent)
 	TwinOf      int       `json:"twin_of"`             // index of the memory this one copies, -1: none
+	Content     string    `json:"content,omitempty"`   // text field "content" (only when the case has a text index)
+}
+
+// c15Hybrid is one hybrid (vector + text) query, run in every search phase.
+type c15Hybrid struct {
+	Text  string  `json:"text"`
+	Mode  string  `json:"mode"` // explicit (text query argument) | contains (CONTAINS(content,'..') filter) | explicit+filter (plus a boolean filter matching every memory)
+	Alpha float64 `json:"alpha"`
+	K     int     `json:"k"`
 }
 
 type c15EngCase struct {
@@ -68,7 +87,12 @@ type c15EngCase struct {
 	// restarted from a snapshot ("snapshot+restart") or from a compacted log ("rewrite+restart"); the decay laws
 	// must hold with the same configuration afterwards.
 	Persist string `json:"persist,omitempty"`
+	// TextLang != "": the index has a text index; memories carry a "content" field and the hybrid queries are run.
+	TextLang string      `json:"text_language,omitempty"`
+	Hybrid   []c15Hybrid `json:"hybrid_queries,omitempty"`
 }
+
+var c15Words = []string{"zebra", "apple", "river", "stone"}
 
 var c15HalfLives = []int64{0, 1, int64(time.Millisecond), int64(time.Second), int64(time.Minute), int64(time.Hour),
 	int64(72 * time.Hour), int64(168 * time.Hour), int64(720 * time.Hour), int64(8760 * time.Hour)}
@@ -242,9 +266,23 @@ func c15GenEng() *rapid.Generator[c15EngCase] {
 			return []float32{rapid.SampledFrom(comp).Draw(t, label+"0"), rapid.SampledFrom(comp).Draw(t, label+"1"), rapid.SampledFrom(comp).Draw(t, label+"2")}
 		}
 		layerNames := []string{"episodic", "semantic", "procedural", "custom", "nosuchlayer", ""}
+		if rapid.IntRange(0, 9).Draw(t, "hasText") >= 6 {
+			c.TextLang = "english"
+		}
 		nBase := rapid.IntRange(1, 5).Draw(t, "nMems")
+		if c.TextLang != "" {
+			nBase = rapid.IntRange(1, 6).Draw(t, "nMemsText")
+		}
 		for i := 0; i < nBase; i++ {
 			m := c15Mem{Vec: genVec("vec"), TwinOf: -1}
+			if c.TextLang != "" && rapid.IntRange(0, 5).Draw(t, "hasContent") > 0 {
+				nw := rapid.IntRange(1, 3).Draw(t, "nWords")
+				var ws []string
+				for j := 0; j < nw; j++ {
+					ws = append(ws, rapid.SampledFrom(c15Words).Draw(t, "word"))
+				}
+				m.Content = strings.Join(ws, " ")
+			}
 			m.AgeS = genAge("age", true)
 			m.CreatedType = rapid.SampledFrom([]string{"float64", "float64", "float64", "float64", "int", "int64", "absent"}).Draw(t, "createdType")
 			m.Pinned = rapid.SampledFrom([]string{"", "", "", "", "bool:true", "str:true", "bool:false", "str:false"}).Draw(t, "pinned")
@@ -317,6 +355,22 @@ func c15GenEng() *rapid.Generator[c15EngCase] {
 			c.Reinforce = append(c.Reinforce, call)
 		}
 		c.Persist = rapid.SampledFrom([]string{"", "", "restart", "snapshot+restart", "snapshot+restart", "rewrite+restart"}).Draw(t, "persist")
+		if c.TextLang != "" {
+			nq := rapid.IntRange(1, 2).Draw(t, "nHybrid")
+			for i := 0; i < nq; i++ {
+				h := c15Hybrid{Text: rapid.SampledFrom(c15Words).Draw(t, "hybridWord")}
+				switch rapid.IntRange(0, 9).Draw(t, "hybridTextKind") {
+				case 0:
+					h.Text += " " + rapid.SampledFrom(c15Words).Draw(t, "hybridWord2")
+				case 1:
+					h.Text = "absent" // matches nothing: the text leg is empty
+				}
+				h.Mode = rapid.SampledFrom([]string{"explicit", "explicit", "contains", "explicit+filter"}).Draw(t, "hybridMode")
+				h.Alpha = rapid.SampledFrom([]float64{0, 0.1, 0.3, 0.5, 0.5, 0.9, 1}).Draw(t, "hybridAlpha")
+				h.K = rapid.SampledFrom([]int{1, 1, 2, 2, 3, 4, c.K}).Draw(t, "hybridK")
+				c.Hybrid = append(c.Hybrid, h)
+			}
+		}
 		return c
 	})
 }
@@ -343,6 +397,9 @@ func c15EngNonTrivial(c c15EngCase) bool {
 func c15EngLabels(c c15EngCase) []string {
 	cfg := c15BuildCfg(c)
 	l := []string{"cfg:" + c.MemCfg}
+	if len(c.Hybrid) > 0 {
+		l = append(l, "hybrid: text index + hybrid queries")
+	}
 	if !c15Enabled(cfg) {
 		return l
 	}
@@ -437,7 +494,69 @@ func c15EngLabels(c c15EngCase) []string {
 	if c.K < len(c.Mems) {
 		add("k < number of memories")
 	}
+	for _, h := range c.Hybrid {
+		if h.Mode != "explicit" {
+			add("hybrid: mode " + h.Mode)
+		}
+		if h.Alpha == 0 || h.Alpha == 1 {
+			add("hybrid: alpha 0 or 1 (one leg weighs nothing)")
+		}
+		matches := 0
+		for i, m := range c.Mems {
+			if !c15TextMatch(m.Content, h.Text) {
+				continue
+			}
+			matches++
+			// label only: is the match certainly outside the vector leg (at least k strictly nearer memories)?
+			di, nearer := c15LabelDist(c.Metric, c.Query, m.Vec), 0
+			for j, o := range c.Mems {
+				if j != i && c15LabelDist(c.Metric, c.Query, o.Vec) < di {
+					nearer++
+				}
+			}
+			if nearer < h.K {
+				continue
+			}
+			add("hybrid: text match outside the k nearest vectors")
+			_, decays := c15HalfLifeOf(cfg, c15LayerOf(m))
+			if decays && !c15PinnedOf(cfg, m) && m.AgeS > 0 && m.CreatedType != "absent" {
+				add("hybrid: aged unpinned decaying text match outside the k nearest vectors")
+			}
+		}
+		if matches == 0 {
+			add("hybrid: text leg empty")
+		}
+	}
 	return l
+}
+
+// c15TextMatch: does the content share a word with the text query (the
+// vocabulary is made of lower-case singular nouns that stemming leaves apart).
+func c15TextMatch(content, query string) bool {
+	for _, w := range strings.Fields(query) {
+		for _, x := range strings.Fields(content) {
+			if w == x {
+				return true
+			}
+		}
+	}
+	return false
+}
+
+// c15LabelDist is used for evidence labels only (never by the oracle).
+func c15LabelDist(metric string, a, b []float32) float64 {
+	var dot, na, nb, d2 float64
+	for i := range a {
+		x, y := float64(a[i]), float64(b[i])
+		dot += x * y
+		na += x * x
+		nb += y * y
+		d2 += (x - y) * (x - y)
+	}
+	if metric == "cosine" {
+		return 1 - dot/math.Sqrt(na*nb)
+	}
+	return d2
 }
 
 // ---------------------------------------------------------------- interpreter
@@ -467,6 +586,13 @@ type c15Stats struct {
 	twinCheck int
 	between   int
 	missing   int
+	// hybrid queries
+	hybHits      int // hits of hybrid queries compared with the control index
+	hybTextOnly  int // ... reached through the text leg only
+	hybTextDecay int // ... reached through the text leg only with a stated factor < 1
+	hybSkipped   int // hits not compared: vector-leg membership differs between the two indexes (distance ties)
+	hybTopK      int // top-k selection comparisons made
+	hybTwin      int // twin comparisons made on hybrid scores
 }
 
 type c15Runner struct {
@@ -664,6 +790,189 @@ func (r *c15Runner) search(phase string) string {
 			}
 		}
 	}
+	for qi, h := range r.c.Hybrid {
+		if msg := r.hybrid(phase, qi, h); msg != "" {
+			return msg
+		}
+	}
+	return ""
+}
+
+// hybrid runs one hybrid query on the memory index "m" and on the control
+// index "c" (same memories, no memory configuration: factor 1) and compares.
+func (r *c15Runner) hybrid(phase string, qi int, h c15Hybrid) string {
+	q, k := r.c.Query, h.K
+	filter, boolFilter, text := "", "", ""
+	switch h.Mode {
+	case "contains":
+		filter = "CONTAINS(content, '" + h.Text + "')"
+	case "explicit+filter":
+		filter, boolFilter, text = "tag='c15'", "tag='c15'", h.Text
+	default:
+		text = h.Text
+	}
+	where := c15Sprintf("[%s] hybrid query #%d (text %q, mode %s, alpha %v, k %d)", phase, qi, h.Text, h.Mode, h.Alpha, k)
+	var gm, gc, vm, vc []GraphSearchResult
+	var ids []string
+	var t0, t1 int64
+	for attempt := 0; attempt < 5; attempt++ {
+		var err error
+		t0 = time.Now().Unix()
+		if gm, err = r.e.VSearchGraph("m", q, k, filter, text, 0, h.Alpha, nil, false, nil); err != nil {
+			return "HARNESS: hybrid VSearchGraph: " + err.Error()
+		}
+		if ids, err = r.e.VSearch("m", q, k, filter, text, 0, h.Alpha, nil); err != nil {
+			return "HARNESS: hybrid VSearch: " + err.Error()
+		}
+		t1 = time.Now().Unix()
+		if t0 == t1 {
+			break
+		}
+	}
+	ticked := t0 != t1
+	var err error
+	if gc, err = r.e.VSearchGraph("c", q, k, filter, text, 0, h.Alpha, nil, false, nil); err != nil {
+		return "HARNESS: hybrid VSearchGraph (control): " + err.Error()
+	}
+	// vector leg of either index: the pure vector search with the same k and boolean filter
+	if vm, err = r.e.VSearchGraph("m", q, k, boolFilter, "", 0, 1.0, nil, false, nil); err != nil {
+		return "HARNESS: VSearchGraph (vector leg): " + err.Error()
+	}
+	if vc, err = r.e.VSearchGraph("c", q, k, boolFilter, "", 0, 1.0, nil, false, nil); err != nil {
+		return "HARNESS: VSearchGraph (vector leg, control): " + err.Error()
+	}
+	inVm, inVc := map[string]bool{}, map[string]bool{}
+	for _, x := range vm {
+		inVm[x.ID] = true
+	}
+	for _, x := range vc {
+		inVc[x.ID] = true
+	}
+	sameLeg := len(inVm) == len(inVc)
+	for id := range inVm {
+		if !inVc[id] {
+			sameLeg = false
+		}
+	}
+	simC := map[string]float64{}
+	for _, x := range gc {
+		if _, ok := r.byID[x.ID]; !ok {
+			return c15Sprintf("HARNESS: %s: control index returned unknown id %q", where, x.ID)
+		}
+		simC[x.ID] = x.Score
+	}
+
+	scoreM := map[string]float64{}
+	posM := map[string]int{}
+	minM := math.Inf(1)
+	for i, res := range gm {
+		mi, ok := r.byID[res.ID]
+		if !ok {
+			return c15Sprintf("%s: VSearchGraph returned unknown id %q", where, res.ID)
+		}
+		if math.IsNaN(res.Score) {
+			return c15Sprintf("%s: score of %s is NaN", where, r.describe(mi))
+		}
+		if i > 0 && !(res.Score <= gm[i-1].Score) {
+			return c15Sprintf("%s: results not ordered by score: #%d %s=%v after #%d %s=%v", where, i, res.ID, res.Score, i-1, gm[i-1].ID, gm[i-1].Score)
+		}
+		scoreM[res.ID], posM[res.ID] = res.Score, i
+		if res.Score < minM {
+			minM = res.Score
+		}
+		s, ok := simC[res.ID]
+		if !ok || !(s > 0) {
+			continue // not returned by the control (its k best differ) or similarity 0: nothing to compare with
+		}
+		if inVm[res.ID] != inVc[res.ID] {
+			r.stats.hybSkipped++
+			continue // distance tie resolved differently: the fused similarity legitimately differs
+		}
+		r.stats.hybHits++
+		leg := "vector leg"
+		if !inVm[res.ID] {
+			leg = "text leg only"
+			r.stats.hybTextOnly++
+		}
+		if !(res.Score >= 0) || res.Score > s*(1+c15RelTol)+c15AbsTol {
+			return c15Sprintf("%s: score of %s (%s) = %v with fused similarity %v (same query, decay disabled): implied decay factor %v not in [0,1]", where, r.describe(mi), leg, res.Score, s, res.Score/s)
+		}
+		hi, ok1 := r.expect(mi, float64(t0))
+		lo, ok2 := r.expect(mi, float64(t1))
+		if ok1 && ok2 {
+			if leg == "text leg only" && hi < 1 {
+				r.stats.hybTextDecay++
+			}
+			if !c15InBracket(res.Score, s*lo, s*hi) {
+				return c15Sprintf("%s: score of %s (%s) = %v = fused similarity %v * factor %v, the stated law gives a factor in [%v, %v] (clock %d..%d)", where, r.describe(mi), leg, res.Score, s, res.Score/s, lo, hi, t0, t1)
+			}
+		}
+	}
+
+	// ids-only API: same order as the scores
+	if !ticked {
+		for i := 1; i < len(ids); i++ {
+			a, okA := scoreM[ids[i-1]]
+			b, okB := scoreM[ids[i]]
+			if okA && okB && b > a {
+				return c15Sprintf("%s: VSearch lists %s (score %v) after %s (score %v)", where, ids[i], b, ids[i-1], a)
+			}
+		}
+	}
+
+	// the k best by score are the ones returned: both indexes have the same
+	// candidates (same vector leg, same text leg), so a candidate known from the
+	// control that is absent from a full result must not beat the last result.
+	if !ticked && sameLeg && len(gm) >= k {
+		for _, x := range gc {
+			if _, present := scoreM[x.ID]; present || !(x.Score > 0) {
+				continue
+			}
+			mi := r.byID[x.ID]
+			lo, ok := r.expect(mi, float64(t1))
+			if !ok {
+				continue
+			}
+			r.stats.hybTopK++
+			if want := x.Score * lo; want > minM+(c15AbsTol+c15RelTol*want) {
+				return c15Sprintf("%s: %s is not among the %d results although its score, fused similarity %v * factor %v = %v, is above the last returned score %v", where, r.describe(mi), len(gm), x.Score, lo, want, minM)
+			}
+		}
+	}
+
+	// reinforced twin never below the unreinforced twin (only when the fused
+	// similarity of the two is the same, i.e. both or neither are vector hits)
+	if !ticked {
+		for i, m := range r.c.Mems {
+			if m.TwinOf < 0 {
+				continue
+			}
+			R, U := -1, -1
+			if r.st[i].reinforced > 0 && r.st[m.TwinOf].reinforced == 0 {
+				R, U = i, m.TwinOf
+			} else if r.st[m.TwinOf].reinforced > 0 && r.st[i].reinforced == 0 {
+				R, U = m.TwinOf, i
+			}
+			if R < 0 {
+				continue
+			}
+			rid, uid := r.c.Mems[R].ID, r.c.Mems[U].ID
+			sr, okR := scoreM[rid]
+			su, okU := scoreM[uid]
+			cr, okCR := simC[rid]
+			cu, okCU := simC[uid]
+			if !okR || !okU || !okCR || !okCU || !c15Close(cr, cu) || inVm[rid] != inVm[uid] || inVm[rid] != inVc[rid] || inVm[uid] != inVc[uid] {
+				continue
+			}
+			r.stats.hybTwin++
+			if !(sr >= su-(c15AbsTol+c15RelTol*math.Abs(su))) {
+				return c15Sprintf("%s: reinforced %s scores %v, below its unreinforced twin %s = %v", where, r.describe(R), sr, r.describe(U), su)
+			}
+			if sr > su+(c15AbsTol+c15RelTol*math.Abs(su)) && posM[rid] > posM[uid] {
+				return c15Sprintf("%s: reinforced %s (score %v) ranked #%d, after its unreinforced twin %s (score %v) at #%d", where, rid, sr, posM[rid], uid, su, posM[uid])
+			}
+		}
+	}
 	return ""
 }
 
@@ -702,15 +1011,25 @@ func c15RunEng(c c15EngCase, stats *c15Stats) (msg string) {
 	if c.Metric == "cosine" {
 		metric = distance.Cosine
 	}
-	if err := e.VCreate("m", metric, 16, 200, distance.Float32, "", nil, nil, c15BuildCfg(c)); err != nil {
+	if err := e.VCreate("m", metric, 16, 200, distance.Float32, c.TextLang, nil, nil, c15BuildCfg(c)); err != nil {
 		return "HARNESS: VCreate: " + err.Error()
 	}
+	control := c.TextLang != "" && len(c.Hybrid) > 0
+	if !control {
+		r.c.Hybrid = nil
+	} else if err := e.VCreate("c", metric, 16, 200, distance.Float32, c.TextLang, nil, nil, nil); err != nil {
+		return "HARNESS: VCreate (control): " + err.Error()
+	}
+	var metas []map[string]any
 
 	base := float64(time.Now().Unix())
 	r.st = make([]c15State, len(c.Mems))
 	for i, m := range c.Mems {
 		r.byID[m.ID] = i
 		meta := map[string]any{"tag": "c15"}
+		if m.Content != "" && c.TextLang != "" {
+			meta["content"] = m.Content
+		}
 		created := base - m.AgeS
 		switch m.CreatedType {
 		case "float64":
@@ -754,6 +1073,13 @@ func c15RunEng(c c15EngCase, stats *c15Stats) (msg string) {
 			st.hasLast, st.last = true, base-*m.LastAgeS
 			meta["_last_accessed"] = st.last
 		}
+		if control {
+			cp := map[string]any{}
+			for k, v := range meta {
+				cp[k] = v
+			}
+			metas = append(metas, cp)
+		}
 		a0 := time.Now().Unix()
 		if err := e.VAdd("m", m.ID, append([]float32{}, m.Vec...), meta); err != nil {
 			return "HARNESS: VAdd: " + err.Error()
@@ -771,6 +1097,15 @@ func c15RunEng(c c15EngCase, stats *c15Stats) (msg string) {
 			st.created = v // adopt the observed timestamp
 		}
 		r.st[i] = st
+	}
+	if control {
+		// the control index: same memories, same metadata, same HNSW level draws, no memory configuration
+		rand.Seed(verifkit.CaseSeed(verifkit.Hash(c)))
+		for i, m := range c.Mems {
+			if err := e.VAdd("c", m.ID, append([]float32{}, m.Vec...), metas[i]); err != nil {
+				return "HARNESS: VAdd (control): " + err.Error()
+			}
+		}
 	}
 
 	if msg := r.search("before reinforce"); msg != "" {
@@ -827,6 +1162,12 @@ func c15RunEng(c c15EngCase, stats *c15Stats) (msg string) {
 			return "HARNESS: VReinforce: " + err.Error()
 		}
 		r1 := time.Now().Unix()
+		if control {
+			// same metadata write on the control index, so that both text indexes stay in the same state
+			if err := e.VReinforce("c", ids); err != nil {
+				return "HARNESS: VReinforce (control): " + err.Error()
+			}
+		}
 		for _, x := range call {
 			if x < 0 || x >= len(c.Mems) {
 				continue
@@ -856,7 +1197,7 @@ func c15RunEng(c c15EngCase, stats *c15Stats) (msg string) {
 
 func TestVerif_C15_engine(t *testing.T) {
 	c15Silence()
-	col := verifkit.New("C15", "engine", "rapid-generated memory index (memory config nil/disabled/default/custom: decay model known/unknown/empty, global + 0-3 layer half-lives from 0/1ns..1y, pinned-by-default layers) with 1-8 memories (vector, _created_at past/now/future/injected as float64/int/int64, _pinned bool/string, _decay_model override, memory_layer, _access_count typed, initial _last_accessed, twins) and 0-4 VReinforce calls; decay factor / score / order checked through VSearchWithScores, VSearchGraph and VSearch before and after every reinforce call, counters through VGet; non-trivial = decay enabled, at least one unpinned memory with a past explicit timestamp in a decaying layer AND at least one of: pinned memory, no-decay layer, future timestamp, twin pair, reinforce call")
+	col := verifkit.New("C15", "engine", "rapid-generated memory index (memory config nil/disabled/default/custom: decay model known/unknown/empty, global + 0-3 layer half-lives from 0/1ns..1y, pinned-by-default layers) with 1-8 memories (vector, _created_at past/now/future/injected as float64/int/int64, _pinned bool/string, _decay_model override, memory_layer, _access_count typed, initial _last_accessed, twins) and 0-4 VReinforce calls; decay factor / score / order checked through VSearchWithScores, VSearchGraph and VSearch before and after every reinforce call, counters through VGet; in about 40% of the cases the index has an English text index, the memories carry a 'content' field of 0-3 words and 1-2 hybrid queries (text query or CONTAINS filter, alpha 0..1, k 1..16) are run in every phase against the memory index and a decay-free control index holding the same memories: score = control score * stated factor for vector-leg and text-leg-only hits, order, top-k selection, twin ordering; non-trivial = decay enabled, at least one unpinned memory with a past explicit timestamp in a decaying layer AND at least one of: pinned memory, no-decay layer, future timestamp, twin pair, reinforce call")
 	defer col.Finish()
 	stats := &c15Stats{}
 	if p := verifkit.ReplayPath(); p != "" {
@@ -892,4 +1233,10 @@ func TestVerif_C15_engine(t *testing.T) {
 	col.Label("observed: twin comparisons made", stats.twinCheck)
 	col.Label("observed: decay factors strictly between 0 and 1", stats.between)
 	col.Label("observed: searches returning fewer results than min(k,n)", stats.missing)
+	col.Label("observed hybrid: hits compared with the decay-free control index", stats.hybHits)
+	col.Label("observed hybrid: hits reached through the text leg only", stats.hybTextOnly)
+	col.Label("observed hybrid: text-leg-only hits whose stated factor is < 1", stats.hybTextDecay)
+	col.Label("observed hybrid: hits not compared (vector-leg membership differs, distance tie)", stats.hybSkipped)
+	col.Label("observed hybrid: top-k selection comparisons made", stats.hybTopK)
+	col.Label("observed hybrid: twin comparisons made", stats.hybTwin)
 }
